@@ -1913,6 +1913,8 @@ fn norm_subs(subs: Vec<Value>) -> Vec<Value> {
 
 pub fn dwarf_case(inp: &Input, version: u16, spanning: bool, variant: &str) -> Option<Value> {
     let with = crate::dwarf::attach(&inp.bytes, crate::dwarf::DwarfOpts { version, spanning })?;
+    // version 5, per-function sequences: every other module gets a row that names file 0
+    let with = if version >= 5 && !spanning && inp.bytes.len() % 2 == 0 { crate::dwarf::patch_row_to_file0(&with).unwrap_or(with) } else { with };
     let id = format!("{}~v{}{}~{}", inp.id, version, if spanning { "span" } else { "" }, variant);
     let src = format!("dwarf:{}:v{}:{}:{}", inp.source, version, spanning, variant);
     let cfg = Cfg { dwarf: true, xform: true, probe: true, ..Default::default() };
